@@ -16,7 +16,7 @@
 From Coq Require Import QArith.
 From SC Require Import Base.Prelude Group.Exec Group.C17Judge Group.ExecLemmas Group.ExecProofs
   Group.ExecAwareProofs Group.ContractProofs
-  Group.ExecPc Group.C17PJudge Group.ExecPcProofs Group.ExecShape
+  Group.ExecPc Group.C17PJudge Group.ExecPcProofs Group.ExecPcClosed Group.ExecPcOneProofs Group.ExecShape
   Group.TraitGroup Group.TraitGroupJudge Group.TraitGroupProofs Group.TraitGroupPullProofs
   Group.TraitGroupPullReduce.
 (* imported last: its pstate / pstep (the process model of executeEach) are the ones meant by the unqualified
@@ -358,6 +358,51 @@ Theorem C17_race_returns_first_observed : forall ms pre evs,
     (x_ret (exec_ev ARace ms pre evs) = RHang \/ x_ret (exec_ev ARace ms pre evs) = race_law tr).
 Proof. exact race_first_observed. Qed.
 Print Assumptions C17_race_returns_first_observed.
+
+(* ---- third wave: the received sequence is EXPLICIT under the guard of generator C17P (every member
+   released exactly once, the parent context cancelled exactly once — before the call or at some step),
+   for EVERY member count, outcome vector, awareness mix, release order and cancellation point.
+   seq_at ms evs q (Group/C17PJudge.v) =
+        own responses of the members released up to step q, in release order
+     ++ context errors of the cancellation-aware members not yet released at q, in index order
+     ++ own responses of the context-ignoring members released after q, in release order,
+   q_of = the earlier of the parent cancellation and the call's own decision step (ExecuteUpTo: first
+   step at which more than max(k,0) released members have failed; ExecuteFast: the release of the
+   first member that succeeds; ExecuteRace: the first release).  The call returns its loop's law on
+   exactly that sequence, and that is the x_ret of the closed-form contract contract_ev. *)
+Theorem C17_received_sequence_closed_form : forall a ms (pre : bool) evs c0,
+  loop_of a (List.length ms) = Some c0 ->
+  perm_b (rel_order evs) (List.length ms) = true ->
+  (npar evs + (if pre then 1 else 0) = 1)%nat ->
+  x_ret (exec_ev a ms pre evs) =
+  wrap_of a (List.length ms) (law_of c0 (List.length ms) (seq_at ms evs (q_of c0 ms pre evs))).
+Proof. exact par_ret_closed_form. Qed.
+Print Assumptions C17_received_sequence_closed_form.
+
+(* the state of the receiving loop once every member has returned is the fold of recv over seq_at,
+   closed by the channel's close if the loop had not returned *)
+Theorem C17_offered_sequence_closed_form : forall c0 ms (pre : bool) evs,
+  shape c0 (List.length ms) ->
+  perm_b (rel_order evs) (List.length ms) = true ->
+  (npar evs + (if pre then 1 else 0) = 1)%nat ->
+  let W := t_w (run_par_t c0 ms pre evs) in
+  w_cons W = fin (consume c0 (seq_at ms evs (q_of c0 ms pre evs))) /\ (forall j, lv W j = false).
+Proof.
+  intros c0 ms pre evs SH PB NP. cbv zeta. rewrite run_par_t_world.
+  destruct (par_offered_closed_form c0 ms pre evs SH PB NP) as [[I _] AD]. split; auto.
+Qed.
+Print Assumptions C17_offered_sequence_closed_form.
+
+(* ExecuteOne (and Execute with strategy One) under a parent cancellation: the event model, run step
+   by step, IS the closed-form recursion one_spec over the members with the time each is invoked —
+   every field of the result, every member count *)
+Theorem C17_one_under_parent_cancel_meets_contract : forall a ms (pre : bool) evs,
+  a = AOne \/ a = AExecute 4 ->
+  perm_b (rel_order evs) (List.length ms) = true ->
+  Nat.eqb (npar evs + (if pre then 1 else 0)) 1 = true ->
+  exec_ev a ms pre evs = contract_ev a ms pre evs.
+Proof. exact exec_ev_one_meets_contract. Qed.
+Print Assumptions C17_one_under_parent_cancel_meets_contract.
 
 (* once every member has been allowed to finish the call has returned — never RHang, never a panic,
    nothing left behind — whatever else happened (parent cancelled or not, at any point) *)
